@@ -3,6 +3,11 @@ import torch
 from ..domain import Domain, BoundaryDomain
 from ...spaces import Points
 
+# Absolute tolerance for deciding that a barycentric coordinate equals 0 or 1.
+# torch.isclose(x, 0) with default arguments only allows |x| <= 1e-8, which is below the
+# float32 rounding error of the barycentric coordinates of points on slanted edges.
+BARY_ATOL = 1e-5
+
 
 class Parallelogram(Domain):
     """Class for arbitrary parallelograms, even if time dependet
@@ -175,8 +180,8 @@ class ParallelogramBoundary(BoundaryDomain):
 
     def _bary_coords_close_to_0_or_1(self, bary_coord1, bary_coord2):
         between_0_1 = torch.logical_and(0 <= bary_coord2, bary_coord2 <= 1)
-        close_to_0 = torch.isclose(bary_coord1, torch.tensor(0.0))
-        close_to_1 = torch.isclose(bary_coord1, torch.tensor(1.0))
+        close_to_0 = torch.isclose(bary_coord1, torch.tensor(0.0), atol=BARY_ATOL)
+        close_to_1 = torch.isclose(bary_coord1, torch.tensor(1.0), atol=BARY_ATOL)
         return torch.logical_and(torch.logical_or(close_to_1, close_to_0), between_0_1)
 
     def _get_volume(self, params=Points.empty(), device="cpu"):
@@ -278,8 +283,12 @@ class ParallelogramBoundary(BoundaryDomain):
     def _add_local_normal_vector(
         self, normals, bary_x, bary_y, normal_dir_1, normal_dir_2, i
     ):
-        y_close_i = torch.where(torch.isclose(bary_y, torch.tensor(i)), 2 * i - 1, 0.0)
-        x_close_i = torch.where(torch.isclose(bary_x, torch.tensor(i)), 2 * i - 1, 0.0)
+        y_close_i = torch.where(
+            torch.isclose(bary_y, torch.tensor(i), atol=BARY_ATOL), 2 * i - 1, 0.0
+        )
+        x_close_i = torch.where(
+            torch.isclose(bary_x, torch.tensor(i), atol=BARY_ATOL), 2 * i - 1, 0.0
+        )
         normals += normal_dir_1 * y_close_i
         normals += normal_dir_2 * x_close_i
 
